@@ -53,7 +53,8 @@ def gen(rng, ctx):
     if neg is None and rng.random() < 0.12:
         # other modules in the same text: the named one must be parsed (with infer and an unknown name: the first one)
         d = N.gen_netlist(rng, "full", max_stmts=4, max_inputs=3, nbb=0)
-        d["name"] = rng.choice(["decoy_a", "zz_other", "Top_2x"])
+        # ... among them modules whose names differ from the wanted one only in case, or extend it
+        d["name"] = rng.choice(["decoy_a", "zz_other", "Top_2x"] + [x for x in (nl["name"].upper(), nl["name"].lower(), nl["name"].swapcase(), nl["name"] + "$b", "x" + nl["name"]) if x != nl["name"]])
         dt = N.render(rng, d, layout="writer")
         decoy = rng.choice(["after", "before"])
         text = text + "\n" + dt if decoy == "after" else dt + "\n" + text
@@ -94,6 +95,8 @@ def check(case, ctx):
         return
     if case.get("decoy"):
         ctx.count("decoy_module_" + case["decoy"])
+        if re.search(r"module\s+" + re.escape(nl["name"]) + r"\b", text, re.I) and len(re.findall(r"module\s+" + re.escape(nl["name"]) + r"\b", text, re.I)) > len(re.findall(r"module\s+" + re.escape(nl["name"]) + r"\b", text)):
+            ctx.count("decoy_name_differs_in_case_only")
     if re.search(r"\)\s*,\s*[A-Za-z_\\][^\s(]*\s*\(\s*\.", text):
         ctx.count("multi_instance_blackbox_statement")
     if "\r\n" in text:
